@@ -23,7 +23,9 @@ fn calculate_view_dimensions<T>(start: Coordinate, end: Coordinate, toodee: &imp
         num_cols = 0;
         num_rows = 0;
     }
-    let data_start = start.1 * stride + start.0;
+    // an empty window has no data, so it needs no offset into the parent (the offset
+    // of an empty window at the far edge would lie beyond the parent's data)
+    let data_start = if num_rows == 0 { 0 } else { start.1 * stride + start.0 };
     let data_len = {
         if num_rows == 0 {
             0
